@@ -9,15 +9,15 @@
      15 stat.RESOURCE_NODE_MAP *)
 From SV Require Import Model.Base Model.Locks.
 
-(** rule maps as given < controller / breaker maps < valid-rule maps < generator maps < node map *)
+(** rule maps as given < controller / breaker maps < (listener list, taken when a breaker is dropped under the
+    breaker map) < valid-rule maps (a listener may read them) < generator maps < node map *)
 Definition lock_rank (l : nat) : nat :=
   match l with
   | 2 => 10 | 1 => 11 | 0 => 12
   | 5 => 20 | 4 => 21 | 3 => 22
-  | 9 => 30 | 8 => 31 | 10 => 32 | 6 => 33
+  | 9 => 30 | 8 => 31 | 7 => 32 | 10 => 33 | 6 => 34
   | 12 => 40 | 11 => 41
   | 14 => 50 | 13 => 51
-  | 7 => 60
   | 15 => 90
   | _ => 100
   end%nat.
@@ -27,6 +27,7 @@ Definition known_contexts : list (nat * list nat) :=
   [ (2, []); (1, [2]); (0, [1; 2]); (15, [0; 1; 2]); (1, []); (0, []);
     (5, []); (4, [5]); (3, [4; 5]); (4, []); (3, []);
     (9, []); (8, [9]); (10, [8; 9]); (6, [8; 9]); (6, [8; 9; 10]); (8, []); (10, []); (6, []); (7, []);
+    (10, [7; 8]); (10, [7; 8; 9]);      (* a listener reads the rules while a breaker is being dropped *)
     (12, []); (11, [12]); (11, []);
     (14, []); (13, [14]); (13, []);
     (15, []) ]%nat.
